@@ -5,8 +5,11 @@ import Dawgs.Model.C06
 cypher/models/pgsql/translate/verif_on.go, hooks/C06.patch) through the Lean scope model.
 
 Input line: `trace (trace (new 1) (pushFrame 1 "<h>") (defineNew 1 "scope" "<h>") …)` or `trace -`.
-Every operation carries the FNV-1a hash of the real scope's state (generator counters, alias table,
-definition keys, frame stack) BEFORE the operation; the model's state must hash to the same value.
+The replay runs on the LIVE scope definition `Scope USym` (separate key spaces): `alias` / `aliasedLookup` use the
+variable table (`USym.var`), `aliasParameter` / `parameterLookup` the parameter table (`USym.param`).
+Every operation carries the FNV-1a hash of the real scope's state (generator counters, the variable alias table,
+the parameter alias table, definition keys, frame stack) BEFORE the operation; the model's state must hash to the
+same value.
 Additional result checks: the identifier `DefineNew` generates, the hit/miss of every `Lookup`, and
 "every Alias follows the Define of the same binding".
 
@@ -25,21 +28,24 @@ def hex16 (h : UInt64) : String :=
 def sortStrings (l : List String) : List String := (l.toArray.qsort (· < ·)).toList
 
 /-- canonical text of the modelled part of a scope; must equal `verifScopeDigest` of the hook -/
-def digest (s : Scope String) : String :=
+def aliasEntry (k : String) (v : String) : String := toString k.utf8ByteSize ++ ":" ++ k ++ "=" ++ v
+
+def digest (s : Scope USym) : String :=
   "g:" ++ ",".intercalate (Cls.all.map (fun c => toString (s.gen.ctr c)))
-  ++ "|a:" ++ ",".intercalate (sortStrings (s.aliases.map (fun p => toString p.1.utf8ByteSize ++ ":" ++ p.1 ++ "=" ++ p.2)))
+  ++ "|a:" ++ ",".intercalate (sortStrings (s.aliases.filterMap (fun p => match p.1 with | .var k => some (aliasEntry k p.2) | .param _ => none)))
+  ++ "|p:" ++ ",".intercalate (sortStrings (s.aliases.filterMap (fun p => match p.1 with | .param k => some (aliasEntry k p.2) | .var _ => none)))
   ++ "|d:" ++ ",".intercalate (sortStrings (s.defs.map (·.1)))
   ++ "|f:" ++ ",".intercalate (s.stack.reverse.map (fun f => toString f.id ++ "/" ++ f.binding))
 
 structure Sc where
-  scope : Scope String
+  scope : Scope USym
   group : Nat
 
 structure St where
   scopes : List (Nat × Sc) := []
   gens : List (Nat × Gen) := []
   snaps : Array Sc := #[]
-  pendingPush : List (Nat × Scope String) := []   -- scope id ↦ the model's state after `PushFrame`
+  pendingPush : List (Nat × Scope USym) := []   -- scope id ↦ the model's state after `PushFrame`
   pendingNew : List (Nat × String) := []          -- scope id ↦ identifier the model generated in `DefineNew`
   lastDefined : Option (Nat × String) := none
   nops : Nat := 0
@@ -56,7 +62,7 @@ def strArgs : List Sexp → List String
   | .atom a :: t => a :: strArgs t
   | _ :: t => strArgs t
 
-def sameCore (a b : Scope String) : Bool :=
+def sameCore (a b : Scope USym) : Bool :=
   digest { a with stack := [], nextFrameID := 0 } == digest { b with stack := [], nextFrameID := 0 }
 
 def applyOp (st : St) (op : String) (sid : Nat) (args : List String) : St :=
@@ -64,13 +70,13 @@ def applyOp (st : St) (op : String) (sid : Nat) (args : List String) : St :=
   | none => st.bad s!"unknown-scope-{sid}"
   | some sc =>
     let gen := (Assoc.get sc.group st.gens).getD Gen.new
-    let s : Scope String := { sc.scope with gen := gen }
+    let s : Scope USym := { sc.scope with gen := gen }
     -- the last argument is the state hash
     let h := args.getLast?.getD ""
     let args := args.dropLast
     let st := { st with nops := st.nops + 1 }
     let st := if hex16 (fnv1a (digest s)) == h then st else st.bad s!"state-before-{op}"
-    let fin (st : St) (s' : Scope String) : St :=
+    let fin (st : St) (s' : Scope USym) : St :=
       { st with scopes := Assoc.set sid { scope := s', group := sc.group } st.scopes, gens := Assoc.set sc.group s'.gen st.gens }
     match op, args with
     | "defineNew", [dt] =>
@@ -90,8 +96,12 @@ def applyOp (st : St) (op : String) (sid : Nat) (args : List String) : St :=
       | none => fin st s'
     | "alias", [k, id] =>
       let st := if st.lastDefined == some (sid, id) then st else { st with aliasOther := st.aliasOther + 1 }
-      fin st (s.alias k id)
+      fin st (s.alias (.var k) id)
+    | "aliasParameter", [k, id] =>
+      let st := if st.lastDefined == some (sid, id) then st else { st with aliasOther := st.aliasOther + 1 }
+      fin st (s.alias (.param k) id)
     | "aliasedLookup", [_] => fin st s
+    | "parameterLookup", [_] => fin st s
     | "lookup", [id, b] =>
       let st := if toString (s.lookup id).isSome == b then st else st.bad s!"lookup-{id}"
       fin st s
